@@ -114,3 +114,24 @@ func VerifSyntaxCheck(input string) (syntaxErrors int, leftover bool, nodes int,
 	}
 	return listener.count, leftover, nodes, ""
 }
+
+// VerifLexerErrors runs the lexer (indentation wrapper included) over input with an error listener
+// of its own and returns the number of errors it reported (token recognition errors).
+func VerifLexerErrors(input string) (count int, panicked string) {
+	defer func() {
+		if r := recover(); r != nil {
+			panicked = fmt.Sprint(r)
+		}
+	}()
+	listener := &verifCountingListener{}
+	lexer := parser.NewYarnSpinnerLexer(antlr.NewInputStream(input))
+	lexer.RemoveErrorListeners()
+	lexer.AddErrorListener(listener)
+	for i := 0; i < 1000000; i++ {
+		token := lexer.NextToken()
+		if token == nil || token.GetTokenType() == antlr.TokenEOF {
+			break
+		}
+	}
+	return listener.count, ""
+}
